@@ -985,6 +985,8 @@ Lemma get_method_S_ref fx f dev c n ov :
   | Some tgt =>
       match apply_override fx c ov tgt with
       | None => Fail AssertFail
+      | Some (OBlock _ bname off rep _) =>
+          Ok ({| m_name := n; m_kind := MBlock bname; m_address := off; m_repeat := rep; m_allow := false |}, [])
       | Some o' =>
           match get_method fx f dev o' with
           | Fail k => Fail k
@@ -1004,8 +1006,8 @@ Proof.
   - rewrite get_method_S_ref in H |- *.
     destruct (search_object (override_target ov) dev) as [tgt|]; [|discriminate].
     destruct (apply_override fx c ov tgt) as [o'|]; [|discriminate].
-    destruct (get_method fx f dev o') as [[m bls]|k] eqn:E; [|discriminate].
-    rewrite (IH _ _ E). exact H.
+    destruct o' as [c' n' off' rep' ch'|rg'|cm'|bf'|c' n' ov']; try exact H;
+      (destruct (get_method fx f dev _) as [[m bls]|k] eqn:E; [|discriminate]; rewrite (IH _ _ E); exact H).
 Qed.
 
 Section Corr.
@@ -1117,8 +1119,7 @@ Section Corr.
         + destruct (search_object tgt dev) as [t|] eqn:Es; [|discriminate].
           destruct t as [c' tn toff trep tch| | | |]; try discriminate.
           apply search_object_in in Es. destruct Es as [Es _].
-          cbn [apply_override] in Hgm. destruct f1 as [|f1]; [discriminate|]. cbn [get_method] in Hgm.
-          destruct (lower_list (get_method fx f1 dev) tch) as [[ms' bls']|k]; [|discriminate].
+          cbn [apply_override] in Hgm.
           injection Hgm as <- <-.
           eapply Hblock; [exists c', toff, trep; exact Es| | | |exact Ha|exact Hb]; reflexivity.
         + destruct (search_object tgt dev) as [t|] eqn:Es; [|discriminate].
@@ -1182,9 +1183,15 @@ Section Corr.
     - destruct (search_object (override_target ov) dev) as [tgt|] eqn:Es; [|discriminate].
       apply search_object_in in Es. destruct Es as [Es _].
       destruct (apply_override fx c ov tgt) as [o'|] eqn:Ea; [|discriminate].
-      destruct (get_method fx f dev o') as [[m' bls']|k] eqn:Eg; [|discriminate].
-      injection H as <- <-. eapply IH; [|exact Eg].
-      destruct ov, tgt; cbn in Ea; try discriminate; injection Ea as <-; cbn; auto. eauto.
+      destruct o' as [c' n' off' rep' ch'|rg'|cm'|bf'|c' n' ov']; try (injection H as <- <-; constructor).
+      * destruct (get_method fx f dev (ORegister rg')) as [[m' bls']|k] eqn:Eg; [|discriminate].
+        injection H as <- <-. eapply IH; [|exact Eg]. exact I.
+      * destruct (get_method fx f dev (OCommand cm')) as [[m' bls']|k] eqn:Eg; [|discriminate].
+        injection H as <- <-. eapply IH; [|exact Eg]. exact I.
+      * destruct (get_method fx f dev (OBuffer bf')) as [[m' bls']|k] eqn:Eg; [|discriminate].
+        injection H as <- <-. eapply IH; [|exact Eg]. exact I.
+      * destruct (get_method fx f dev (ORef c' n' ov')) as [[m' bls']|k] eqn:Eg; [|discriminate].
+        injection H as <- <-. eapply IH; [|exact Eg]. exact I.
   Qed.
 End Corr.
 
